@@ -240,3 +240,48 @@ class Guards:
                     for root, proj in self.pts.resolve_place(pl):
                         ext.add((root, fields_only(proj)))
         return frozenset(f for f in facts if not self._killed(f, ext, locs))
+
+
+def path_exists_with_facts(fn, G, targets, required, start=0):
+    """Is there a CFG path from `start` to any block in `targets` along which every fact in `required`
+    is established by some traversed edge (and not subsequently contradicted)? Product-state search."""
+    required = list(required)
+    targets = set(targets)
+    seen = set()
+    stack = [(start, frozenset())]
+    while stack:
+        b, have = stack.pop()
+        if (b, have) in seen:
+            continue
+        seen.add((b, have))
+        if b in targets and len(have) == len(required):
+            return True
+        for s in fn.succs(b):
+            ef = G.edge_facts.get((b, s), set())
+            h2 = set(have)
+            contradicted = False
+            for i, r in enumerate(required):
+                if r in ef:
+                    h2.add(i)
+                elif negation(r) in ef:
+                    contradicted = True
+            if contradicted:
+                # the edge establishes the opposite of a required fact: this path cannot satisfy it *at this point*;
+                # it may be re-established later only by another evaluation, which we allow by dropping it
+                for i, r in enumerate(required):
+                    if negation(r) in ef:
+                        h2.discard(i)
+            stack.append((s, frozenset(h2)))
+    return False
+
+
+def negation(f):
+    if f[0] == "bool":
+        return ("bool", f[1], not f[2])
+    if f[0] == "cmp":
+        return ("cmp", f[1], f[2], f[3], not f[4])
+    if f[0] == "ok":
+        return ("err", f[1])
+    if f[0] == "err":
+        return ("ok", f[1])
+    return ("none",)
